@@ -43,7 +43,22 @@ def run(ctx, F, cg):
                 elif shared:
                     ctx.violation("R35a", inst, where(r, arm["lo"]), "Parameter shares an arm with %s" % [v for v in vs if v != "Parameter"])
                 else:
-                    ctx.ok("R35a", inst, "looks $name up, fails otherwise")
+                    # the key looked up in the row is the name in the parameter namespace (`$name`, a formatted
+                    # string), never the bare name: that one is a row variable
+                    bare = None
+                    mb = F.mir(fn)
+                    if mb is not None:
+                        bb_ = Body(mb, r)
+                        thr = lambda cc: [0] if cc.path.rsplit("::", 1)[-1] in ("deref", "as_str", "borrow", "as_ref", "must_use", "as_deref") else None
+                        for c in bb_.calls():
+                            if c.path.endswith("record::Record::get") and arm["lo"] <= c.line <= arm["hi"] and len(c.args) > 1 and c.args[1][0] != "k":
+                                og = bb_.origins(c.args[1][1][0], through_calls=thr)
+                                if not any(o[0] in ("call", "via") and o[1].path.rsplit("::", 1)[-1] in ("format", "format_inner", "concat", "push_str", "join") or (o[0] in ("call", "via") and "fmt::format" in o[1].path) for o in og):
+                                    bare = c.line
+                    if bare:
+                        ctx.violation("R35a", inst + "|bare-name-lookup", where(r, bare), "the Parameter arm looks the bare name up in the row: `$x` then silently resolves to a row variable `x` instead of the bound value (or an error)")
+                    else:
+                        ctx.ok("R35a", inst, "looks $name up, fails otherwise")
     ctx.floor("R35a", "evaluator arms on Expression::Parameter", evals, 6)
     # ---- R35b ------------------------------------------------------------------------------------------
     se = F.fn("query::executor::substitute_expr")
@@ -153,6 +168,54 @@ def run(ctx, F, cg):
                 else:
                     ctx.violation("R35d", short + "|order-by-not-substituted", where(sp), "the substitution visits %s but not its `%s`: a parameter in that ORDER BY stays in place, its evaluation error is swallowed by the sort, and the rows come back in a different order than with the value inlined" % (st.rsplit("::", 1)[-1], fname))
     ctx.floor("R35d", "ORDER BY positions in visited AST structs", n_ob, 2)
+    # every field of Query that bears an ORDER BY (directly, through a WITH clause or through the clause list) is
+    # visited, and on every path to Ok; nested statements (fields holding a Query) are executed through execute(),
+    # which substitutes again
+    qadt = F.adts.get("samyama::query::ast::Query")
+    if not qadt:
+        ctx.anchor_failure("R35d", "ADT facts of ast::Query")
+    else:
+        spb = Body(F.mir(sp["path"]), sp)
+        reads = {}
+        def _places(rv):
+            k = rv[0]
+            if k in ("use", "repeat"):
+                return [rv[1][1]] if rv[1][0] != "k" else []
+            if k in ("ref", "rawptr"):
+                return [rv[2]]
+            if k in ("cast", "un"):
+                return [rv[2][1]] if rv[2][0] != "k" else []
+            if k == "bin":
+                return [o[1] for o in rv[2:4] if o[0] != "k"]
+            if k == "agg":
+                return [o[1] for o in rv[2] if o[0] != "k"]
+            if k == "discr":
+                return [rv[1]]
+            return []
+        for i, j, pl, rv, line, exp in spb.stmts():
+            for pp in _places(rv) + [pl]:
+                for x in pp[1]:
+                    if isinstance(x, str) and x.startswith("f:samyama::query::ast::Query."):
+                        reads.setdefault(x.rsplit(".", 1)[-1], set()).add(i)
+        for c in spb.calls():
+            for a in c.args:
+                if a[0] != "k":
+                    for x in a[1][1]:
+                        if isinstance(x, str) and x.startswith("f:samyama::query::ast::Query."):
+                            reads.setdefault(x.rsplit(".", 1)[-1], set()).add(c.bb)
+        oks = [i for i, j, pl, rv, line, exp in spb.stmts() if pl[0] == 0 and rv[0] == "agg" and rv[1].endswith("Result::Ok")]
+        n_q = 0
+        for fname, fty, _ in qadt["variants"][0]["fields"]:
+            if not any(t in fty for t in ("ast::OrderByClause", "ast::WithClause", "ast::Clause>")) or "ast::Query" in fty:
+                continue
+            n_q += 1
+            if fname not in reads:
+                ctx.violation("R35d", "Query.%s|not-substituted" % fname, where(sp), "substitute_params never visits Query::%s (%s): a parameter in a WITH / ORDER BY held there stays in place, and where its evaluation error is swallowed (sort keys) the rows silently differ from the inlined form" % (fname, fty.replace("samyama::query::ast::", "")))
+            elif oks and not all(spb.must_pass(0, o, reads[fname]) for o in oks):
+                ctx.violation("R35d", "Query.%s|skipped-on-a-path" % fname, where(sp), "substitute_params can return Ok without having visited Query::%s: on that path a parameter in its ORDER BY stays in place and the sort silently treats the key as null" % fname)
+            else:
+                ctx.ok("R35d", "Query.%s" % fname, "visited on every path to Ok")
+        ctx.floor("R35d", "ORDER-BY-bearing fields of Query", n_q, 4)
     cm = [m for h in helpers for m in F.arms(h["path"]) if m["sty"].replace("&", "").replace("mut ", "").strip().endswith("ast::Clause")]
     if "samyama::query::ast::Query.clauses" not in visited or not cm:
         ctx.violation("R35e", "substitute_params|pipeline-not-visited", where(sp), "substitute_params does not walk Query::clauses: nothing in a clause-pipeline statement (WITH ... MATCH ... WITH ...) is substituted")
@@ -175,7 +238,7 @@ def run(ctx, F, cg):
     n_dis = 0
     for owner, callee, how, r_, line in error_discard_sites(F):
         n_dis += 1
-        site = [k for k in SORT_KEY_SITES if owner.endswith(k) or k in owner]
+        site = [k for k in SORT_KEY_SITES if (owner.endswith(k) or k in owner) and how in SORT_KEY_HOW]
         inst = "%s|%s|%s" % (owner, callee, how)
         if site:
             ctx.ok("R35f", inst, "reviewed: " + SORT_KEY_SITES[site[0]])
@@ -190,6 +253,7 @@ def run(ctx, F, cg):
 
 EVAL = ("eval_expression", "evaluate_expression", "eval_predicate", "evaluate_predicate", "eval_predicate_standalone", "eval_expression_standalone")
 DISCARD = ("unwrap_or", "unwrap_or_default", "unwrap_or_else", "ok", "is_ok", "is_err")
+SORT_KEY_HOW = ("unwrap_or", "unwrap_or_default", "unwrap_or_else", "ok")     # the forms the reviewed sort-key sites use
 SORT_KEY_SITES = {
     "SortOperator::key_of": "ORDER BY key: a failing key sorts as null (engine's leniency, same for inlined values)",
     "SortOperator::key_of_cached": "ORDER BY key (cached form), as key_of",
@@ -229,6 +293,14 @@ def error_discard_sites(F):
                 continue
             for arm in m["arms"]:
                 pt = arm["pat"]
+                if pt.get("k") in ("wild", "bind") and not arm.get("guard"):
+                    # `_ => <a value>` in a match over an evaluation Result: the Err lands here too
+                    named_err = any(a2["pat"].get("k") == "variant" and a2["pat"]["p"].endswith("::Err") for a2 in m["arms"])
+                    reraises = any(c.endswith("Result::Err") or "ExecutionError::" in c for c in arm["ctors"]) or any(c.rsplit("::", 1)[-1] in ("from_residual",) for c in arm["calls"])
+                    if not named_err and not reraises and not arm.get("empty"):
+                        owner = fnp.split("::{closure")[0].replace("samyama::query::executor::operator::", "").replace("samyama::query::executor::", "").replace("<", "").replace(">", "")
+                        out.append((owner, "eval (match)", "wildcard-arm", r_, arm["lo"]))
+                    continue
                 if pt.get("k") != "variant" or not pt["p"].endswith("::Err"):
                     continue
                 sub = pt.get("sub") or []
